@@ -7,6 +7,7 @@ CONSTANTS
   DeepDepth = 8
   HierDepth = 2
   XDepth = 1
+  SelfDepth = 2
   Wide = TRUE
   EmitCases = TRUE
 INIT Init
